@@ -204,6 +204,9 @@ def main(check, argv=None):
 
     printed = 0
     for v in new_violations:
+        if printed >= 200:
+            printed += 1          # replay artefacts are written for the first 200 violations only
+            continue
         path = _replay_path(check.id, v["case"])
         if printed < 10:
             print("VIOLATION property=%s replay=%s" % (check.id, path))
